@@ -37,5 +37,47 @@ func VerifC07_PropertyListing() {
 			zzverif.Assert(p.Optional() == optional[i], "the optional status is kept in the listing")
 		}
 	}
+	// the listing is a function of the schema: asking again gives the same keys
+	again := oi.PropertiesInfos()
+	zzverif.Assert(len(again) == len(props), "a second listing of the same object has the same properties")
+	zzverif.Reach("listed")
+}
+
+// VerifC07_ListingOfTwoHeirs: the root is a choice between two objects that
+// both inherit the same parent type: each of the two listed objects has its
+// own properties followed by the parent's.
+func VerifC07_ListingOfTwoHeirs() {
+	zzverif.Expect("listed")
+	d := string([]byte{zzverif.Digit("d")})
+	root := jschema.New("root", "@cat | @dog")
+	_ = root.AddType("@animal", jschema.New("@animal", `{"name": "x", "age": `+d+`}`))
+	_ = root.AddType("@cat", jschema.New("@cat", "{ // {allOf: \"@animal\"}\n  \"purr\": true\n}"))
+	_ = root.AddType("@dog", jschema.New("@dog", "{ // {allOf: \"@animal\"}\n  \"bark\": "+d+"\n}"))
+	if root.Check() != nil {
+		return
+	}
+	infos := Dereference(root)
+	zzverif.Assert(len(infos) == 2, "a choice between two objects dereferences to two schema informations")
+	if len(infos) != 2 {
+		return
+	}
+	want := [][]string{{"purr", "name", "age"}, {"bark", "name", "age"}}
+	for i, info := range infos {
+		oi, ok := info.(ObjectInformer)
+		zzverif.Assert(ok, "each alternative lists properties")
+		if !ok {
+			return
+		}
+		for round := 0; round < 2; round++ {
+			props := oi.PropertiesInfos()
+			same := len(props) == len(want[i])
+			if same {
+				for k := range props {
+					same = same && props[k].Key() == want[i][k]
+				}
+			}
+			zzverif.Assert(same, "every heir lists its own properties followed by the shared parent's, on every call")
+		}
+	}
 	zzverif.Reach("listed")
 }
